@@ -2,7 +2,7 @@
    Same line protocol as props/C01/h_img.c.
      img <toymode> <bs> <N> <nodes>                                  -> <rc> <root_ref> <refs> <ids> <hex itbl> <hex dtbl> # <flags>
      rd  <toymode> <bs> <N> <nodes> <root_ref> <ids> <itbl> <dtbl>   -> OK <nodes in tree> | MISMATCH ... | NOREAD ...
-   flags: r<0|1> representable, f<0|1> trace_fits, t<0|1> read_tree (on the model's own tables) = spec_tree *)
+   flags: r<0|1> representable, f<0|1> trace_fits *)
 open Img_model
 
 let rec pos_of_int i = if i = 1 then XH else if i land 1 = 1 then XI (pos_of_int (i lsr 1)) else XO (pos_of_int (i lsr 1))
@@ -105,19 +105,8 @@ let cmd_img () =
   | Ok img ->
     let rep = representable bs t in
     let fit = trace_fits img in
-    (* the model's own round trip (theorem tree_roundtrip, evaluated): only for moderate sizes *)
-    let n = List.length t in
-    let rt =
-      if n <= 400 && (int_of_n mode = 0 || int_of_n mode = 1 || int_of_n mode = 3) then begin
-        let fuel = nat_of_int n in
-        let a = read_tree (img_uncompress mode) bs img.si_itbl img.si_dtbl img.si_ids fuel img.si_root in
-        let b = spec_tree t fuel (n_of_int n) in
-        match a, b with
-        | Some x, Some y when x = y -> "1"
-        | _ -> "0"
-      end else "-" in
-    Printf.printf "0 %s %s %s %s %s # r%s f%s t%s\n" (string_of_n img.si_root) (nlist_s img.si_refs) (nlist_s img.si_ids)
-      (hex img.si_itbl) (hex img.si_dtbl) (b01 rep) (b01 fit) rt
+    Printf.printf "0 %s %s %s %s %s # r%s f%s\n" (string_of_n img.si_root) (nlist_s img.si_refs) (nlist_s img.si_ids)
+      (hex img.si_itbl) (hex img.si_dtbl) (b01 rep) (b01 fit)
   | Err e -> Printf.printf "%d -\n" (int_of_z e)
   | Crash -> print_string "CRASH -\n"
   | OutOfFuel -> print_string "FUEL -\n"
